@@ -40,7 +40,7 @@ def run(ck, w):
     for s in sites:
         if s.fate in ("swallowed", "logged"):
             k = (s.body.root, s.callee_short(), s.detail)
-            if k in ERR_ALLOWED or (s.body.root, s.callee_short(), None) in ERR_ALLOWED:
+            if k in ERR_ALLOWED or (s.body.root, s.callee_short(), None) in ERR_ALLOWED or errscope.allowed_kind_conversion(s):
                 continue
             bad.append(s)
     if bad:
